@@ -203,7 +203,9 @@ impl MCOptimiser {
         let mut step_ratio = 1.;
         let mut convergence_count = 0;
 
-        for loop_counter in 1..=(self.steps / self.inner_steps) {
+        // There are no loops to run when either the steps or inner_steps are zero
+        let total_loops = self.steps.checked_div(self.inner_steps).unwrap_or(0);
+        for loop_counter in 1..=total_loops {
             let score_start = score_current;
             let mut loop_rejections: u64 = 0;
             for _ in 0..self.inner_steps {
